@@ -120,22 +120,56 @@ def validate_many(jobs: list, stats: core.Stats, *, shards: int = 16, timeout: i
     from concurrent.futures import ThreadPoolExecutor
 
     def one(p):
-        module = jobs[p[0]][0]
-        return tlc.run_tlc(module, module + ".cfg", env=p[2], workers=1, timeout=timeout, heap="3g", subdir="trace")
+        """One shard.  TLC judges the events in order; when it stops on an event (evaluation error of the
+        specification on what the code under test produced) that event gets the verdict "crash:<why>" and
+        the events after it are handed to a fresh TLC run, so the rest of the shard is still judged."""
+        ji, part, env = p
+        module, b = jobs[ji][0], jobs[ji][1]
+        extra = jobs[ji][3] if len(jobs[ji]) > 3 else None
+        verdicts, runs, todo = {}, [], part
+        for _attempt in range(12):
+            r = tlc.run_tlc(module, module + ".cfg", env=env, workers=1, timeout=timeout, heap="3g", subdir="trace")
+            runs.append(r)
+            for m in _V.finditer(r.stdout):
+                verdicts[int(m.group(1))] = m.group(2)
+            missing = [e for e in todo if e["id"] not in verdicts]
+            if r.ok and not missing:
+                return verdicts, runs, None
+            if r.timed_out or not missing or "V" not in r.stdout and not verdicts:
+                break
+            k = r.stdout.find("The exception was")
+            why = " ".join(r.stdout[k:k + 300].split()) if k >= 0 else "; ".join(r.errors[:2])
+            crashed = missing[0]
+            verdicts[crashed["id"]] = "crash:" + why[:200]
+            rest = missing[1:]
+            if "tid" in crashed:
+                rest = [e for e in rest if e.get("tid") != crashed["tid"] or e.get("ev") == "Begin"]
+                for e in missing[1:]:
+                    if e.get("tid") == crashed["tid"]:
+                        verdicts.setdefault(e["id"], "skip:after-crash")
+            todo = rest
+            if not todo:
+                return verdicts, runs, None
+            env = {"PMV_INPUT": tlc.write_input(_shard_input(b, todo, extra), "trace")}
+        k = runs[-1].stdout.find("Error:")
+        return verdicts, runs, (f"{module}: TLC failed: " + "; ".join(runs[-1].errors[:3]) + "\n"
+                               + runs[-1].stdout[max(0, k):k + 2500] + "\n...\n" + runs[-1].stdout[-1200:])
     with ThreadPoolExecutor(max_workers=16) as ex:
         results = list(ex.map(one, plan))
     out = [dict() for _ in jobs]
-    for (ji, part, _), r in zip(plan, results):
+    for (ji, part, _), (verdicts, runs, err) in zip(plan, results):
         module, what = jobs[ji][0], jobs[ji][2]
-        if not r.ok:
-            k = r.stdout.find("Error:")
-            raise core.MachineryError(f"{module}: TLC failed: " + "; ".join(r.errors[:3]) + "\n" + r.stdout[max(0, k):k + 2500] + "\n...\n" + r.stdout[-1200:])
-        stats.add_tlc(r, f"{what} {module}")
-        for m in _V.finditer(r.stdout):
-            out[ji][int(m.group(1))] = m.group(2)
+        if err:
+            raise core.MachineryError(err)
+        for r in runs:
+            stats.add_tlc(r, f"{what} {module}")
+        out[ji].update(verdicts)
+        for i, v in verdicts.items():
+            if v.startswith("crash:"):
+                stats.crashes.append(f"{what} {module} event {i}: {v[6:]}")
         missing = [e["id"] for e in part if e["id"] not in out[ji]]
         if missing:
-            raise core.MachineryError(f"{module}: no verdict for events {missing[:5]}\n" + r.stdout[-1500:])
+            raise core.MachineryError(f"{module}: no verdict for events {missing[:5]}\n" + runs[-1].stdout[-1500:])
     return out
 
 
